@@ -127,6 +127,68 @@ func (w *World) byzBlock(b int, r int, variant string) *BlockInfo {
 		mutate(func(hd *types.Header) { hd.Height++ })
 	case "bad-proposer":
 		mutate(func(hd *types.Header) { hd.ProposerAddress = common.BytesToAddress([]byte("nobody")) })
+	case "bad-parent-parts-total":
+		mutate(func(hd *types.Header) { hd.LastBlockID.PartsHeader.Total++ })
+	case "bad-parent-parts-hash":
+		mutate(func(hd *types.Header) {
+			hd.LastBlockID.PartsHeader.Hash = common.BytesToHash([]byte("bogus parent parts"))
+		})
+	case "bad-time-earlier":
+		mutate(func(hd *types.Header) { hd.Time = hd.Time.Add(-time.Millisecond) })
+	case "bad-lastcommit-round", "bad-lastcommit-height", "bad-lastcommit-id-parts", "bad-lastcommit-half", "bad-lastcommit-swapped-sigs", "bad-lastcommit-short":
+		// one field of the last commit off (the header keeps pointing at the right parent)
+		if h == 1 {
+			return nil
+		}
+		c := commit.Copy()
+		sigs := append([]types.CommitSig{}, c.Signatures...)
+		ch, cr, cid := c.Height, c.Round, c.BlockID
+		switch variant {
+		case "bad-lastcommit-round":
+			cr++
+		case "bad-lastcommit-height":
+			ch--
+		case "bad-lastcommit-id-parts":
+			cid.PartsHeader.Total++
+		case "bad-lastcommit-half":
+			// keep for-block signatures of at most 2/3 of the power (exactly at the bound when the total allows)
+			vals := rn.State().LastValidators
+			tot, acc := vals.TotalVotingPower(), int64(0)
+			for i := range sigs {
+				if sigs[i].Absent() {
+					continue
+				}
+				p := vals.Validators[i].VotingPower
+				if (acc+p)*3 > tot*2 {
+					sigs[i] = types.NewCommitSigAbsent()
+				} else {
+					acc += p
+				}
+			}
+		case "bad-lastcommit-swapped-sigs":
+			a, bb := -1, -1
+			for i := range sigs {
+				if !sigs[i].Absent() {
+					if a < 0 {
+						a = i
+					} else if bb < 0 {
+						bb = i
+					}
+				}
+			}
+			if bb < 0 {
+				return nil
+			}
+			sigs[a].Signature, sigs[bb].Signature = sigs[bb].Signature, sigs[a].Signature
+		case "bad-lastcommit-short":
+			sigs = sigs[:len(sigs)-1]
+		}
+		nc := types.NewCommit(ch, cr, cid, sigs)
+		hd := block.Header()
+		hd.LastCommitHash = common.Hash{} // NewBlock then derives it from nc: the block is self-consistent, only the commit is wrong
+		block = types.NewBlock(hd, block.Transactions(), nc, nil, trie.NewStackTrie(nil))
+		parts = block.MakePartSet(types.BlockPartSizeBytes)
+		invalid = variant
 	case "bad-lastcommit":
 		// keep only the adversary's own signature: not +2/3
 		if h == 1 {
@@ -143,6 +205,7 @@ func (w *World) byzBlock(b int, r int, variant string) *BlockInfo {
 		}
 		nc := types.NewCommit(c.Height, c.Round, c.BlockID, sigs)
 		hd := block.Header()
+		hd.LastCommitHash = common.Hash{} // NewBlock then derives it from nc: the block is self-consistent, only the commit is wrong
 		block = types.NewBlock(hd, block.Transactions(), nc, nil, trie.NewStackTrie(nil))
 		parts = block.MakePartSet(types.BlockPartSizeBytes)
 		invalid = variant
@@ -150,7 +213,9 @@ func (w *World) byzBlock(b int, r int, variant string) *BlockInfo {
 		panic("unknown block variant " + variant)
 	}
 	bi := w.noteBlock(block, parts, "byz:"+variant, invalid)
-	bi.Invalid = invalid
+	if bi.Invalid != invalid {
+		panic(fmt.Sprintf("netsim: block variant %s has the hash of an already known block (%s, invalid=%q)", variant, bi.Origin, bi.Invalid))
+	}
 	if w.byzBlocks == nil {
 		w.byzBlocks = map[string]*BlockInfo{}
 	}
@@ -176,7 +241,9 @@ func (w *World) byzProposal(b int, bi *BlockInfo, h uint64, round, pol uint32, t
 	return out
 }
 
-var invalidVariants = []string{"bad-apphash", "bad-lastblockid", "bad-time", "bad-valhash", "bad-nextvalhash", "bad-height", "bad-proposer", "bad-lastcommit"}
+var invalidVariants = []string{"bad-apphash", "bad-lastblockid", "bad-time", "bad-valhash", "bad-nextvalhash", "bad-height", "bad-proposer", "bad-lastcommit",
+	"bad-parent-parts-total", "bad-parent-parts-hash", "bad-time-earlier", "bad-lastcommit-round", "bad-lastcommit-height", "bad-lastcommit-id-parts",
+	"bad-lastcommit-half", "bad-lastcommit-swapped-sigs", "bad-lastcommit-short"}
 
 // byzMenu lists the adversary's moves against receiver r in its current state.
 func (w *World) byzMenu(r int) []*ByzAction {
